@@ -124,6 +124,9 @@ func (w *vWorld) takePrefix(prefix string) *vOut {
 
 // the remote node's findAncestor: the first of the hashes that is on its main chain
 func (w *vWorld) honestAncestor(hashes [][]byte) *types.BlockInfo {
+	if w.realAncestor != nil {
+		return w.realAncestor(hashes)
+	}
 	for _, h := range hashes {
 		if n, ok := w.rno[string(h)]; ok {
 			return &types.BlockInfo{Hash: h, No: uint64(n)}
